@@ -55,6 +55,7 @@ class SimRaw(io.RawIOBase):
         self.fs, self.path, self.gen = fs, path, gen
         self._sim_closed = False
         self.name = path
+        self._pos = len(fs.files.get(path, b""))
 
     def writable(self):
         return True
@@ -67,11 +68,31 @@ class SimRaw(io.RawIOBase):
         return False
 
     def seekable(self):
-        return False
+        return True
+
+    def tell(self):
+        return self._pos
+
+    def seek(self, offset, whence=0):
+        size = len(self.fs.files.get(self.path, b""))
+        if whence == 0:
+            pos = offset
+        elif whence == 1:
+            pos = self._pos + offset
+        else:
+            pos = size + offset
+        if pos != size and pos != self._pos:
+            # writing anywhere but at the end is not something a CSV
+            # appender does; refuse loudly rather than simulate it wrongly
+            raise OSError(errno.ESPIPE, "simfs: only sequential writes")
+        self._pos = pos
+        return pos
 
     def write(self, b):
         data = bytes(b)
-        return self.fs.raw_write(self, data)
+        n = self.fs.raw_write(self, data)
+        self._pos += n or 0
+        return n
 
     def close(self):
         if self._sim_closed:
